@@ -136,6 +136,11 @@ def parallelise[K: Hashable, Tin, Tout](
         if len(set(keys)) != len(keys):
             msg = "Caching needs unique keys, but some keys occur more than once"
             raise ValueError(msg)
+        # ... and per file: keys that are not equal can still be written alike (two NaN)
+        names = [cache.name_fn(k) for k in keys]
+        if len(set(names)) != len(names):
+            msg = "Caching needs one file per key, but some keys share a file name"
+            raise ValueError(msg)
         cache.tmp_dir.mkdir(parents=True, exist_ok=True)
 
     if sys.platform in ["win32", "cygwin"]:
